@@ -18,6 +18,7 @@ TRUSTED = ["rustc type/borrow checker and MIR construction", "cwmt-facts driver"
 ASSUMPTIONS = ["user-supplied router/modules are opaque; only the default dispatch chain is analysed"]
 
 KEY = submsg.KEY
+W = "wasm::WasmKeeper::"
 EXEC = ("app::CosmosRouter", "execute")
 
 
@@ -31,6 +32,36 @@ def check(ctx, cfg):
     r3(ctx, cfg)
     r4(ctx, cfg)
     r5(ctx, cfg)
+    r6(ctx, cfg)
+
+
+def r6(ctx, cfg, R="C02.R6"):
+    """"absorbed exactly when ... the reply handler succeeds; otherwise the parent fails as a whole" needs two things outside the
+    decision table of execute_submsg:
+    - a reply that fails is a failure of the sub-message, on the success path as well: the error of every `reply(..)` call in
+      execute_submsg leaves the function as an error (an `Err(_) => carry on` arm commits a half-applied reply subtree);
+    - a handler that does not exist has not succeeded: `ContractWrapper`'s optional entry points (sudo, reply, migrate) produce
+      a success only by calling the closure that was supplied - the `None` arm is an error."""
+    F, P = cfg.facts, cfg.prov
+    key = W + "execute_submsg"
+    n = 0
+    for g in F.lexical(key):
+        for b, t in g.calls():
+            if t["callee"]["key"] == W + "reply":
+                n += 1
+                ctx.ob(R, key, "reply-error-propagates#%d" % n, q.error_propagates(P, g, b), "the error of reply(..) at line %s does not leave execute_submsg as an error" % t["line"],
+                       fn=g, line=t["line"], sample="self.reply(..)? / returned as it is")
+    ctx.ob(R, key, "reply-sites", n >= 1, "no reply call found in execute_submsg", sample=str(n))
+    for name, fld in (("sudo", "sudo_fn"), ("reply", "reply_fn"), ("migrate", "migrate_fn")):
+        k2 = "<contracts::ContractWrapper as contracts::Contract>::%s" % name
+        f = ctx.need_fn(R, k2)
+        if f is None:
+            continue
+        def supplied(conds):
+            return any(c[0] == "variant_in" and c[2] == ("Some",) and contains(c[1], lambda x: x[0] == "field" and x[2] == fld and is_param(x[1], "self")) for e, c in conds)
+        out = q.successes_outside(P, f, supplied)
+        ctx.ob(R, k2, "missing-entry-point-is-an-error", not out, "ContractWrapper::%s can produce a success at block(s) %s although no %s closure was supplied" % (name, out, name),
+               fn=f, sample="None => bail!(..)")
 
 
 def r5(ctx, cfg):
